@@ -11,6 +11,8 @@ fn squash(t: impl ToTokens) -> String {
     t.to_token_stream().to_string().split_whitespace().collect::<String>()
 }
 
+static UNKNOWN_ATTRS: std::sync::Mutex<Vec<String>> = std::sync::Mutex::new(Vec::new());
+
 #[derive(Default, Debug)]
 struct SerdeAttrs {
     rename: Option<String>,
@@ -49,7 +51,10 @@ fn serde_attrs(attrs: &[syn::Attribute]) -> SerdeAttrs {
                 "bound" => {
                     let _ = val();
                 }
-                _ => {
+                other => {
+                    // an attribute this translator does not understand (alias, flatten, other, ...) changes what the
+                    // derive accepts: reported, so that the schema obligation breaks instead of silently passing
+                    UNKNOWN_ATTRS.lock().unwrap().push(other.to_string());
                     let _ = val();
                 }
             }
@@ -430,6 +435,12 @@ pub fn translate(repo: &Path, out: &mut Out) {
     let mut j = serde_json::Map::new();
     j.insert("manual_impls".into(), json!(manual));
     j.insert("types".into(), json!(defs.iter().map(|d| d.name.clone()).collect::<Vec<_>>()));
+    let mut unknown: Vec<String> = UNKNOWN_ATTRS.lock().unwrap().drain(..).collect();
+    unknown.sort();
+    unknown.dedup();
+    for u in unknown {
+        out.miss(format!("serde schema: attribute `{u}` is not understood by the schema translator"));
+    }
     out.coq("GenSerde.v").push_str(&v);
     out.json.insert("serde".into(), serde_json::Value::Object(j));
 }
